@@ -6,7 +6,8 @@
    ([Leaf hdr read_only constraint default value] or [Map hdr children]);
    [step repaired] transcribes set_value / add / remove / get of
    parameters.py and set_parameter / get_parameter of model.py as they are in
-   /repo now; [run] folds it over an operation list starting from the root map
+   /repo now ([step_root] is the same function with the dotted key pre-split
+   into segments, see C18_transcription_is_segment_walk); [run] folds it over an operation list starting from the root map
    a DSOLModel creates ([init]); [valid_for c v] is the declared type / bounds /
    option list / quantity type of each class; identities ([h_id]) are creation
    stamps, so they order parameters by insertion. *)
@@ -110,6 +111,17 @@ Theorem C18_path_splitting :
   (forall key, has_dot key = false -> segments key = [key]).
 Proof. exact (conj segments_first_rest segments_nodot). Qed.
 Print Assumptions C18_path_splitting.
+
+(* the line-by-line transcription of get / remove / "get then change in place"
+   (what the correspondence check executes, [step] and [run] are built on it)
+   is the same function as the walk over segments the other theorems use *)
+Theorem C18_transcription_is_segment_walk :
+  (forall m key, py_get m key = get m key) /\
+  (forall m key, py_remove m key = remove_at (segments key) m) /\
+  (forall f m key, py_modify f m key = modify (segments key) f m) /\
+  (forall q n root o, step_root_lit q n root o = step_root q n root o).
+Proof. exact (conj py_get_eq (conj py_remove_eq (conj py_modify_eq step_root_lit_eq))). Qed.
+Print Assumptions C18_transcription_is_segment_walk.
 
 (* "... and removable": remove(extended key) hands back exactly that
    parameter, the key no longer resolves, keys that do not extend it resolve
@@ -228,15 +240,15 @@ Ltac in_list := vm_compute; repeat (first [left; reflexivity | right]).
 Definition len_units : list string := ["m"; "km"; "mm"].
 
 Definition ex_ops : list op :=
-  [ OAddCtor None (mkSpec "n" 2 false (SInt (NI 0) (NI 10)) (VInt 5));                 (* 1 *)
-    OAddMeth None (mkSpec "sub" 1 true SMap VNone);                                     (* 2 *)
-    OAddCtor (Some "sub") (mkSpec "x" 1 false (SFloat (NF FNInf) (NF FPInf)) (VFloat (FFin 1.5)));  (* 3 *)
-    OAddCtor (Some "sub") (mkSpec "deep" 1 true SMap VNone);                            (* 4: same priority as x *)
-    OAddCtor (Some "sub.deep") (mkSpec "s" 1 true SStr (VStr "fixed"));                 (* 5: read-only *)
-    OAddCtor (Some "sub.deep") (mkSpec "b" (1#2) false SBool (VBool true));             (* 6: sorts before s *)
-    OAddCtor (Some "sub") (mkSpec "q" 1 false (SQty (NI 0) (NI 100)) (VQty 0 (FFin 2) "m"));  (* 7 *)
-    OAddMeth (Some "sub") (mkSpec "sel" 3 false (SSel ["CA"; "MD"]) (VStr "CA"));       (* 8 *)
-    OAddCtor None (mkSpec "u" 2 false (SUnit 0 len_units) (VStr "km"));                 (* 9: ties with n, goes after it *)
+  [ OAddCtor None (mkSpec "n" 2 false (SInt (NI 0) (NI 10)) (VInt 5) no_flaws);                 (* 1 *)
+    OAddMeth None (mkSpec "sub" 1 true SMap VNone no_flaws);                                     (* 2 *)
+    OAddCtor (Some "sub") (mkSpec "x" 1 false (SFloat (NF FNInf) (NF FPInf)) (VFloat (FFin 1.5)) no_flaws);  (* 3 *)
+    OAddCtor (Some "sub") (mkSpec "deep" 1 true SMap VNone no_flaws);                            (* 4: same priority as x *)
+    OAddCtor (Some "sub.deep") (mkSpec "s" 1 true SStr (VStr "fixed") no_flaws);                 (* 5: read-only *)
+    OAddCtor (Some "sub.deep") (mkSpec "b" (1#2) false SBool (VBool true) no_flaws);             (* 6: sorts before s *)
+    OAddCtor (Some "sub") (mkSpec "q" 1 false (SQty (NI 0) (NI 100)) (VQty 0 (FFin 2) "m") no_flaws);  (* 7 *)
+    OAddMeth (Some "sub") (mkSpec "sel" 3 false (SSel ["CA"; "MD"]) (VStr "CA") no_flaws);       (* 8 *)
+    OAddCtor None (mkSpec "u" 2 false (SUnit 0 len_units) (VStr "km") no_flaws);                 (* 9: ties with n, goes after it *)
     OSet "n" (VInt 7);                                                                  (* accepted *)
     OSet "n" (VInt 11);                                                                 (* out of bounds *)
     OSet "n" (VFloat (FFin 3));                                                         (* wrong type *)
@@ -245,8 +257,8 @@ Definition ex_ops : list op :=
     OSet "sub.sel" (VStr "AZ");                                                         (* not an option *)
     OSet "sub.deep.s" (VStr "other");                                                   (* read-only *)
     OModelSet "sub.deep.b" (VBool false);                                               (* accepted *)
-    OAddCtor None (mkSpec "n" 9 false SStr (VStr "dup"));                               (* duplicate *)
-    OAddCtor None (mkSpec "bad" 1 false (SInt (NI 0) (NI 10)) (VInt 50)) ].             (* failing construction *)
+    OAddCtor None (mkSpec "n" 9 false SStr (VStr "dup") no_flaws);                               (* duplicate *)
+    OAddCtor None (mkSpec "bad" 1 false (SInt (NI 0) (NI 10)) (VInt 50) no_flaws) ].             (* failing construction *)
 
 Definition ex_state : state := run repaired init ex_ops.
 
@@ -307,12 +319,12 @@ Example ex_roundtrip_hyp :
 Proof. eexists. vm_compute. reflexivity. Qed.
 
 Example ex_failed_construction_hyp :
-  snd (step_root repaired 20 (st_root ex_state) (OAddCtor (Some "sub") (mkSpec "z" 1 false SBool (VInt 1)))) = ORaise TypeError.
+  snd (step_root repaired 20 (st_root ex_state) (OAddCtor (Some "sub") (mkSpec "z" 1 false SBool (VInt 1) no_flaws))) = ORaise TypeError.
 Proof. vm_compute. reflexivity. Qed.
 
 Example ex_stable_insertion_hyp :
   exists h ch x', node_at (st_root ex_state) [] = Some (Map h ch) /\ StronglySorted prio_le ch /\
-                  map_add (node_of 20 (mkSpec "t" 2 false SBool (VBool true))) (Map h ch) = Val x' /\
+                  map_add (node_of 20 (mkSpec "t" 2 false SBool (VBool true) no_flaws)) (Map h ch) = Val x' /\
                   match x' with Map _ ch' => map pkey ch' = ["sub"; "n"; "u"; "t"] | _ => False end.
 Proof.
   eexists. eexists. eexists. split; [vm_compute; reflexivity|].
